@@ -53,7 +53,7 @@ def case_patch(fam, rep):
         rng = rng_for(run.seed, "C09", "patch", fam, rep)
         mon = SolverMonitor(run).attach()
         try:
-            mesh, L = problems.box_mesh(fam, rng)
+            mesh, L = problems.box_mesh(fam, rng, curved_interior=bool(rep % 2))
             d = mesh.dim
             kind = "3d" if d == 3 else "planestrain"
             field = problems.field_for(fam, mesh, kind)
@@ -103,7 +103,7 @@ def case_curve(loadcase, fam, name, rep):
         rng = rng_for(run.seed, "C09", "curve", loadcase, fam, name, rep)
         mon = SolverMonitor(run).attach()
         try:
-            mesh, L = problems.box_mesh(fam, rng)
+            mesh, L = problems.box_mesh(fam, rng, curved_interior=bool((rep // 2) % 2))
             d = mesh.dim
             planestrain = d == 2
             field = problems.field_for(fam, mesh, "planestrain" if planestrain else "3d")
@@ -253,7 +253,7 @@ def cases(tier, seed):
     out = []
     reps = 1 if tier == "quick" else 5
     for fam in FAMS3 + FAMS2:
-        for rep in range(reps if tier == "thorough" else 1):
+        for rep in range(reps if tier == "thorough" else 2):
             out.append(("patch:%s:%d" % (fam, rep), case_patch(fam, rep + (FAMS3 + FAMS2).index(fam))))
     k = 0
     for loadcase in ("uniaxial", "biaxial"):
